@@ -98,8 +98,153 @@ pub fn cmd_cert(arg: &str) -> String {
     r.unwrap_or_else(|| "PANIC".into())
 }
 
-pub fn cmd_envelope(_: &str) -> String { "TODO".into() }
-pub fn cmd_envdec(_: &str) -> String { "TODO".into() }
+// ---------------------------------------------------------------- envelope encryption
+use roughenough::kms::{EnvelopeEncryption, KmsError, KmsProvider};
+use std::collections::HashMap;
+use std::sync::Mutex;
+
+static KMS_TABLE: Mutex<Option<HashMap<Vec<u8>, Vec<u8>>>> = Mutex::new(None);
+static KMS_COUNTER: Mutex<u64> = Mutex::new(0);
+
+/// Harness key-management providers:
+///   handle:<L>  wraps to an opaque L-byte handle kept in a table (any length 1..=65535)
+///   id          identity
+///   errenc / errdec        the provider call fails
+///   wrongkey / wronglen    decrypt_dek returns another 32-byte key / a 16-byte key
+struct HarnessKms {
+    kind: String,
+    wrapped_len: usize,
+}
+
+impl KmsProvider for HarnessKms {
+    fn encrypt_dek(&self, dek: &Vec<u8>) -> Result<Vec<u8>, KmsError> {
+        match self.kind.as_str() {
+            "errenc" => Err(KmsError::OperationFailed("harness: encrypt fails".into())),
+            "id" => Ok(dek.clone()),
+            _ => {
+                let mut c = KMS_COUNTER.lock().unwrap();
+                *c += 1;
+                let mut w = Vec::with_capacity(self.wrapped_len);
+                let mut x = *c ^ 0x9e3779b97f4a7c15;
+                while w.len() < self.wrapped_len {
+                    x ^= x << 13;
+                    x ^= x >> 7;
+                    x ^= x << 17;
+                    w.push((x & 0xff) as u8);
+                }
+                let mut t = KMS_TABLE.lock().unwrap();
+                t.get_or_insert_with(HashMap::new).insert(w.clone(), dek.clone());
+                Ok(w)
+            }
+        }
+    }
+
+    fn decrypt_dek(&self, w: &Vec<u8>) -> Result<Vec<u8>, KmsError> {
+        let looked = || -> Result<Vec<u8>, KmsError> {
+            let t = KMS_TABLE.lock().unwrap();
+            match t.as_ref().and_then(|m| m.get(w)) {
+                Some(d) => Ok(d.clone()),
+                None => Err(KmsError::OperationFailed("harness: unknown handle".into())),
+            }
+        };
+        match self.kind.as_str() {
+            "errdec" => Err(KmsError::OperationFailed("harness: decrypt fails".into())),
+            "id" => Ok(w.clone()),
+            "wrongkey" => looked().map(|d| d.iter().map(|b| b ^ 0x55).collect()),
+            "wronglen" => looked().map(|d| d[..16].to_vec()),
+            _ => looked(),
+        }
+    }
+}
+
+fn render_kerr(e: &KmsError) -> &'static str {
+    match e {
+        KmsError::OperationFailed(_) => "OperationFailed",
+        KmsError::InvalidConfiguration(_) => "InvalidConfiguration",
+        KmsError::InvalidData(_) => "InvalidData",
+        KmsError::InvalidKey(_) => "InvalidKey",
+    }
+}
+
+fn provider(spec: &str) -> HarnessKms {
+    let mut it = spec.splitn(2, ':');
+    let kind = it.next().unwrap().to_string();
+    let wrapped_len = it.next().map(|x| x.parse().unwrap()).unwrap_or(48);
+    HarnessKms { kind, wrapped_len }
+}
+
+/// envelope <provider> <plaintexthex> : encrypt_seed then decrypt_seed with the same provider
+pub fn cmd_envelope(arg: &str) -> String {
+    let p: Vec<&str> = arg.trim().split(' ').collect();
+    let kms = provider(p[0]);
+    let pt = unhex(p[1]);
+    let r = guarded(move || match EnvelopeEncryption::encrypt_seed(&kms, &pt) {
+        Err(e) => format!("ENC=ERR {}", render_kerr(&e)),
+        Ok(blob) => {
+            let dec = match EnvelopeEncryption::decrypt_seed(&kms, &blob) {
+                Ok(v) => format!("OK {}", hex(&v)),
+                Err(e) => format!("ERR {}", render_kerr(&e)),
+            };
+            // the wrapped handle and the DEK the provider saw (so that a later process can re-install it)
+            let wlen = u16::from_le_bytes([blob[0], blob[1]]) as usize;
+            let w = blob[4..4 + wlen].to_vec();
+            let k = KMS_TABLE.lock().unwrap().as_ref().and_then(|m| m.get(&w).cloned()).unwrap_or_else(|| w.clone());
+            format!("ENC=OK {} W={} K={} DEC={}", hex(&blob), hex(&w), hex(&k), dec)
+        }
+    });
+    r.unwrap_or_else(|| "PANIC".into())
+}
+
+/// envdec <provider> <blobhex> : decrypt_seed
+pub fn cmd_envdec(arg: &str) -> String {
+    let p: Vec<&str> = arg.trim().split(' ').collect();
+    let kms = provider(p[0]);
+    let blob = unhex(p.get(1).copied().unwrap_or("-"));
+    let r = guarded(move || match EnvelopeEncryption::decrypt_seed(&kms, &blob) {
+        Ok(v) => format!("OK {}", hex(&v)),
+        Err(e) => format!("ERR {}", render_kerr(&e)),
+    });
+    r.unwrap_or_else(|| "PANIC".into())
+}
+
+/// kmsput <whex> <dekhex> : install a handle in the provider table
+pub fn cmd_kmsput(arg: &str) -> String {
+    let p: Vec<&str> = arg.trim().split(' ').collect();
+    let mut t = KMS_TABLE.lock().unwrap();
+    t.get_or_insert_with(HashMap::new).insert(unhex(p[0]), unhex(p[1]));
+    "OK".into()
+}
+
+/// kmsunwrap <provider> <whex> : what the harness provider answers (oracle for the model)
+pub fn cmd_kmsunwrap(arg: &str) -> String {
+    let p: Vec<&str> = arg.trim().split(' ').collect();
+    let kms = provider(p[0]);
+    match kms.decrypt_dek(&unhex(p.get(1).copied().unwrap_or("-"))) {
+        Ok(v) => format!("OK {}", hex(&v)),
+        Err(e) => format!("ERR {}", render_kerr(&e)),
+    }
+}
+
+/// aeadopen <key> <nonce> <ct> : AES-256-GCM open with AD "roughenough", straight from ring
+pub fn cmd_aeadopen(arg: &str) -> String {
+    use ring::aead::{Aad, LessSafeKey, Nonce, UnboundKey, AES_256_GCM};
+    let p: Vec<&str> = arg.trim().split(' ').collect();
+    let key = unhex(p[0]);
+    let nonce = unhex(p[1]);
+    let mut ct = unhex(p.get(2).copied().unwrap_or("-"));
+    let k = match UnboundKey::new(&AES_256_GCM, &key) {
+        Ok(k) => LessSafeKey::new(k),
+        Err(_) => return "BADKEY".into(),
+    };
+    let n: [u8; 12] = match nonce.as_slice().try_into() {
+        Ok(n) => n,
+        Err(_) => return "BADNONCE".into(),
+    };
+    match k.open_in_place(Nonce::assume_unique_for_key(n), Aad::from("roughenough"), &mut ct) {
+        Ok(pt) => format!("OK {}", hex(pt)),
+        Err(_) => "ERR".into(),
+    }
+}
 // ---------------------------------------------------------------- statistics
 use roughenough::stats::{AggregatedStats, ClientStats, PerClientStats, Reporter, ServerStats, StatsQueue};
 use std::net::{IpAddr, Ipv4Addr};
